@@ -207,6 +207,19 @@ Theorem C08_cy_vector_inputs_eq_definition :
 Proof. exact x_vec_inputs_eq. Qed.
 Print Assumptions C08_cy_vector_inputs_eq_definition.
 
+(* a list / iterator of samples, each in its OWN label order (dicts with different key orders, labelled rows):
+   after _as_samples_iterator's re-alignment to the first sample's order, every row is evaluated as the
+   assignment it was given as - for every permutation, not only self-inverse ones *)
+Theorem C08_cy_vector_inputs_aligned :
+  forall (xm : xcqm) (first : list label) (lrs : list (list label * list Qc)),
+    xexpr_wf (xm_obj xm) -> covers first (xexpr_labels (xm_obj xm) (xm_pvars xm)) = true ->
+    xcons_wf (xm_cons xm) -> xcons_covered (xm_pvars xm) first (xm_cons xm) ->
+    x_vec_inputs xm first (align_rows first lrs)
+    = Some (map (fun lr => energy (m_obj (xcqm_cqm xm)) (row_sample (fst lr) (snd lr))) lrs,
+            map (fun k => map (fun lr => energy (c_lhs k) (row_sample (fst lr) (snd lr))) lrs) (m_cons (xcqm_cqm xm))).
+Proof. exact x_vec_inputs_aligned. Qed.
+Print Assumptions C08_cy_vector_inputs_aligned.
+
 (* two presentations of the same assignment (other column order, extra columns) give the same data *)
 Theorem C08_cy_column_order_irrelevant :
   forall (xm : xcqm) (ls : list label) (row : list Qc) (ls' : list label) (row' : list Qc),
